@@ -75,6 +75,10 @@ func collectFields(dir string) {
 // (their methods are instrumented in their own file), so they are not atomic fields themselves.
 func classify(name, t string) {
 	tt := strings.TrimPrefix(t, "*")
+	// arrays / slices of atomics (e.g. `data [segmentSize]atomic.Pointer[T]`): x.data[i].Store(v) → Store:data
+	if i := strings.Index(tt, "]"); strings.HasPrefix(tt, "[") && i > 0 {
+		tt = strings.TrimPrefix(tt[i+1:], "*")
+	}
 	switch {
 	case strings.HasPrefix(tt, "atomic."):
 		atomicFields[name] = true
@@ -180,7 +184,17 @@ func atomicLabels(n ast.Node) []string {
 	return out
 }
 
+// curRecv is the name of the current method's receiver ("" for plain functions): points
+// then go through vsched.PointOn(recv, label) so the harness can focus on chosen objects.
+var curRecv string
+
 func pointStmt(label string) ast.Stmt {
+	if curRecv != "" {
+		return &ast.ExprStmt{X: &ast.CallExpr{
+			Fun:  &ast.SelectorExpr{X: ast.NewIdent("vsched"), Sel: ast.NewIdent("PointOn")},
+			Args: []ast.Expr{ast.NewIdent(curRecv), &ast.BasicLit{Kind: token.STRING, Value: fmt.Sprintf("%q", label)}},
+		}}
+	}
 	return &ast.ExprStmt{X: &ast.CallExpr{
 		Fun:  &ast.SelectorExpr{X: ast.NewIdent("vsched"), Sel: ast.NewIdent("Point")},
 		Args: []ast.Expr{&ast.BasicLit{Kind: token.STRING, Value: fmt.Sprintf("%q", label)}},
@@ -223,6 +237,12 @@ func lockRewrite(s ast.Stmt) (ast.Stmt, string) {
 		}
 	}
 	label := m + ":" + recv
+	if fn == "Lock" && curRecv != "" {
+		return &ast.ExprStmt{X: &ast.CallExpr{
+			Fun:  &ast.SelectorExpr{X: ast.NewIdent("vsched"), Sel: ast.NewIdent("LockOn")},
+			Args: []ast.Expr{ast.NewIdent(curRecv), arg, &ast.BasicLit{Kind: token.STRING, Value: fmt.Sprintf("%q", label)}},
+		}}, label
+	}
 	return &ast.ExprStmt{X: &ast.CallExpr{
 		Fun:  &ast.SelectorExpr{X: ast.NewIdent("vsched"), Sel: ast.NewIdent(fn)},
 		Args: []ast.Expr{arg, &ast.BasicLit{Kind: token.STRING, Value: fmt.Sprintf("%q", label)}},
@@ -235,6 +255,9 @@ type siteLog struct {
 }
 
 var curSites *siteLog
+
+// entry: functions that get a `Call:<name>` point as their first statement (-entry a,b)
+var entry map[string]bool
 var multi []string
 
 // header expression of compound statements (what is evaluated when the statement starts)
@@ -392,6 +415,7 @@ func main() {
 	in, out := os.Args[1], os.Args[2]
 	only := map[string]bool{}
 	sitesOut := ""
+	entry = map[string]bool{}
 	pkgdir := filepath.Dir(in)
 	for i := 3; i < len(os.Args); i++ {
 		switch os.Args[i] {
@@ -399,6 +423,11 @@ func main() {
 			i++
 			for _, f := range strings.Split(os.Args[i], ",") {
 				only[f] = true
+			}
+		case "-entry":
+			i++
+			for _, f := range strings.Split(os.Args[i], ",") {
+				entry[f] = true
 			}
 		case "-sites":
 			i++
@@ -420,10 +449,21 @@ func main() {
 			continue
 		}
 		name := funcName(fd)
-		if len(only) > 0 && !only[name] && !only[fd.Name.Name] {
+		if len(only) > 0 && !only[name] && !only[fd.Name.Name] && !entry[name] && !entry[fd.Name.Name] {
 			continue
 		}
 		curSites = &siteLog{Func: name}
+		curRecv = ""
+		if fd.Recv != nil && len(fd.Recv.List) == 1 && len(fd.Recv.List[0].Names) == 1 && fd.Recv.List[0].Names[0].Name != "_" {
+			if _, isPtr := fd.Recv.List[0].Type.(*ast.StarExpr); isPtr {
+				curRecv = fd.Recv.List[0].Names[0].Name
+			}
+		}
+		if entry[name] || entry[fd.Name.Name] {
+			l := "Call:" + fd.Name.Name
+			fd.Body.List = append([]ast.Stmt{pointStmt(l)}, fd.Body.List...)
+			curSites.Sites = append(curSites.Sites, l)
+		}
 		fd.Body.List = rewriteBlock(fd.Body.List)
 		// function literals inside (goroutines etc.) are left alone on purpose
 		if len(curSites.Sites) > 0 {
